@@ -74,6 +74,12 @@ def effect_rule(chk, prog, closure, rule_r1, rule_r2, label, written=None):
                 nfail += 1
                 chk.fail(rule_r2, f.name, 'no call to non-reentrant %s()' % base, f.loc(c),
                          'reached via ' + ' <- '.join(reversed(call_path(closure, key)[-4:])))
+            elif q in effects.PROCESS_STATE_SETTERS or 'std::' + q in effects.PROCESS_STATE_SETTERS:
+                nfail += 1
+                chk.fail(rule_r2, f.name, 'no change of process-wide state (%s)' % q, f.loc(c),
+                         'every other thread observes the changed state while this handler works (and two handlers '
+                         'that save/restore it can leave it changed for good); reached via ' +
+                         ' <- '.join(reversed(call_path(closure, key)[-4:])))
     return nfail
 
 
